@@ -25,7 +25,9 @@ ASSUMPTIONS = [
 
 
 # the tolerance argument of the clean calls: the default, or an explicit legal value (0 asks for exact removals only)
-TOLS = st.sampled_from(["default", "default", "default", "zero-int", "zero-frac", "zero-float", "tiny", "kw-zero"])
+TOLS = st.sampled_from(["default", "default", "default", "zero-int", "zero-frac", "zero-float", "tiny", "kw-zero",
+                        "nodes-default", "nodes-zero"])
+DEFAULT_TOLS = (None, "default", "nodes-default")  # the calls that run under the default tolerance 1e-9
 
 
 def call_clean(curve, name, tol):
@@ -34,6 +36,15 @@ def call_clean(curve, name, tol):
         return fn()
     if tol == "kw-zero":
         return fn(tolerance=0)
+    if tol in ("nodes-default", "nodes-zero"):
+        # the documented explicit route: "Nodes equals to extremities are ignored", "Nodes which are not in
+        # knotvectors are ignored" - every knot of the curve, both ends and one parameter that is not a knot must
+        # clean exactly as the call without nodes does
+        if name != "knot_clean":
+            return fn() if tol == "nodes-default" else fn(0)
+        knots = list(curve.knotvector.knots)
+        nodes = knots + [(knots[0] + knots[1]) / 2]
+        return fn(nodes) if tol == "nodes-default" else fn(nodes, 0)
     val = {"zero-int": 0, "zero-frac": F(0), "zero-float": 0.0, "tiny": F(1, 10 ** 30)}[tol]
     if name == "knot_clean":
         return fn(None, val)
@@ -121,7 +132,9 @@ def degree_reducible(st_):
 def run_cleans(curve, ref, cleans, out, klass, minimal=None, tol=None):
     """Shared: run the clean calls, check function / idempotence / minimality."""
     lossy = False
-    if tol not in (None, "default"):
+    if tol in ("nodes-default", "nodes-zero"):
+        out.cls("knot_clean-with-explicit-nodes")
+    if tol not in DEFAULT_TOLS:
         out.cls("tolerance=" + tol)
         klass += ";explicit-tolerance"
     for name in cleans:
@@ -133,11 +146,11 @@ def run_cleans(curve, ref, cleans, out, klass, minimal=None, tol=None):
             # at most (k * sqrt(2e-9))^2 (k over-estimated by the number of knots that disappeared)
             nfits = len(ref.U) - len(after.U) + 1
             allowed = nfits * nfits * 2 * F(1, 10 ** 9) * max(F(1), ref.U[-1] - ref.U[0])
-            if tol in (None, "default") and ref.w is None and after.w is None and sq_integral(ref, after) <= allowed:
+            if tol in DEFAULT_TOLS and ref.w is None and after.w is None and sq_integral(ref, after) <= allowed:
                 lossy = True
                 out.exclude("tolerance-accepted-inexact-removal")
                 return None
-            if tol in (None, "default") and ref.w is not None:
+            if tol in DEFAULT_TOLS and ref.w is not None:
                 # rational: weights constant to within the tolerance are dropped, a removal exact to within the
                 # tolerance is accepted - allowed ("never by more than the tolerance allows")
                 dev, _ = oracle.max_deviation(ref, after)
@@ -211,7 +224,7 @@ def check_history(case, out):
         out.exclude("refinement-changed-function (C04/C06 territory)")
         return
     tolk = case.get("tol")
-    if case.get("nudge") and tolk not in (None, "default", "tiny") and (has_ins or has_elev) and len(refined.P) >= 3:
+    if case.get("nudge") and tolk not in DEFAULT_TOLS + ("tiny",) and (has_ins or has_elev) and len(refined.P) >= 3:
         # nearly removable: one control point of the refined curve moved by 1e-6 / 1e-7 (removal errors far below
         # the default 1e-9).  With an explicit tolerance of zero every clean call must then leave the function
         # exactly as it is - whatever it removes, it may only remove what is exactly removable
@@ -223,7 +236,7 @@ def check_history(case, out):
         out.cls("nearly-removable;tolerance=0")
         run_cleans(curve, nudged, case["cleans"], out, "history;nearly-removable", None, tolk)
         return
-    if case.get("kink") and tolk in (None, "default") and (has_ins or has_elev) and len(refined.P) >= 3:
+    if case.get("kink") and tolk in DEFAULT_TOLS and (has_ins or has_elev) and len(refined.P) >= 3:
         # a small kink on a curve of any size: every control point times M, then one of them moved by 1/100 .. 1/10.
         # Removing what the kink needs costs about kink^2, far above the default tolerance whatever M is: the clean
         # calls may change the function by what the tolerance allows and no more
